@@ -331,3 +331,30 @@ rejected = g_is("g.rejected")
 def new_flag_left_up(sc, sysm):
   """the call was rejected and returned, yet the rejected source's run flag is up (its thread, if any, would go on posting)"""
   return lambda B, st: B.and_(B.eq(st["g.rejected"], B.const(1)), B.eq(st["new.run.flag"], B.const(1)), ended(sysm, B, st, 0))
+
+
+# ---- an accepted timed post under every interleaving (C10) ----------------------------------------------------------------------------
+def timed_too_many(sc, sysm):
+  n = sc.info["times"]
+  crash = any_crash(sc, sysm)
+  return lambda B, st: B.or_(crash(B, st), B.ult(B.const(n), st["g.posts_by_new"]), B.eq(st["g.rejected"], B.const(1)))
+
+
+def timed_quiescent_wrong(sc, sysm):
+  """nobody can move (the object's thread waits), yet the source did not post exactly n times, or its posts were not all dispatched, or its
+  run flag is still up, or it is not tracked"""
+  n = sc.info["times"]
+  pend = sc.info["pending"]
+  ex = sc.info["existing"]
+
+  def f(B, st):
+    good = B.and_(B.eq(st["g.posts_by_new"], B.const(n)), B.eq(st["g.dispatched"], B.const(n + pend)), B.eq(st["new.run.flag"], B.const(0)),
+                  B.eq(st["g.accepted"], B.const(1)), B.eq(st["tracked.len"], B.const(ex + 1)), B.eq(st["D.len"], B.const(0)))
+    return B.not_(good)
+  return f
+
+
+def timed_all_posted(sc, sysm):
+  n = sc.info["times"]
+  pend = sc.info["pending"]
+  return lambda B, st: B.and_(B.eq(st["g.posts_by_new"], B.const(n)), B.eq(st["g.dispatched"], B.const(n + pend)))
